@@ -199,3 +199,73 @@ Proof.
   - lra.
   - intros i Hi. unfold gpost, glik, radd, ropp, mtv, mv, res, rsub, exA, exPe, exb, exgh, exxs. cbn [ip]. unfold mv. cbn [ip]. ring.
 Qed.
+
+(* ---- finite differences of the Gaussian log-likelihood: the forward difference quotient SciPy's '2-point' scheme forms when no
+        gradient is handed over deviates from the directional derivative by EXACTLY (t/2) x curvature along the direction ---- *)
+Definition unitv (i : nat) : rvec := fun j => if Nat.eqb j i then 1 else 0.
+
+Lemma ip_unitv n (u : rvec) i : (i < n)%nat -> ip n u (unitv i) = u i.
+Proof.
+  induction n as [|n IH]; intros Hi; [lia|]. cbn [ip]. unfold unitv at 2.
+  destruct (Nat.eqb n i) eqn:E.
+  - apply Nat.eqb_eq in E. subst i.
+    assert (Z : ip n u (unitv n) = 0).
+    { clear IH Hi. assert (G : forall k, (k <= n)%nat -> ip k u (unitv n) = 0).
+      { induction k as [|k IHk]; intros Hk; [reflexivity|]. cbn [ip]. rewrite IHk by lia. unfold unitv.
+        destruct (Nat.eqb k n) eqn:E; [apply Nat.eqb_eq in E; lia | ring]. }
+      apply G. lia. }
+    rewrite Z. ring.
+  - apply Nat.eqb_neq in E. rewrite IH by lia. ring.
+Qed.
+
+Lemma ip_scal_r n c u w : ip n w (fun i => c * u i) = c * ip n w u.
+Proof. induction n as [|n IH]; cbn [ip]; [ring|]. rewrite IH. ring. Qed.
+
+Section FiniteDifference.
+Variables (m n : nat) (A Pe : rmat) (b : rvec).
+Hypothesis HPe : sym_on m Pe.
+
+Lemma loglik_line x d t :
+  loglik m n A Pe b (rline x d t) = loglik m n A Pe b x + t * ip n (glik m n A Pe b x) d - t * t / 2 * qf Pe m (mv A n d).
+Proof.
+  rewrite (loglik_expansion m n A Pe b HPe x (rline x d t)).
+  assert (D : forall j, rsub (rline x d t) x j = t * d j) by (intros j; unfold rsub, rline; ring).
+  assert (E1 : ip n (glik m n A Pe b x) (rsub (rline x d t) x) = t * ip n (glik m n A Pe b x) d).
+  { rewrite <- ip_scal_r. apply ip_ext; [reflexivity|]. intros i _. apply D. }
+  assert (X : forall i, mv A n (rsub (rline x d t) x) i = t * mv A n d i).
+  { intros i. unfold mv. rewrite <- ip_scal_r. apply ip_ext; [reflexivity|]. intros j _. apply D. }
+  assert (E2 : qf Pe m (mv A n (rsub (rline x d t) x)) = t * t * qf Pe m (mv A n d)).
+  { unfold qf.
+    transitivity (ip m (fun i => t * mv Pe m (mv A n d) i) (fun i => t * mv A n d i)).
+    - apply ip_ext; [|intros i _; apply X]. intros i _. unfold mv at 1 3. rewrite <- ip_scal_r.
+      apply ip_ext; [reflexivity|]. intros j _. apply X.
+    - rewrite ip_scal_l, ip_scal_r. ring. }
+  rewrite E1, E2. lra.
+Qed.
+
+(* forward difference quotient = directional derivative - (t/2) curvature *)
+Lemma fd_quotient x d t : t <> 0 ->
+  (loglik m n A Pe b (rline x d t) - loglik m n A Pe b x) / t = ip n (glik m n A Pe b x) d - t / 2 * qf Pe m (mv A n d).
+Proof. intros Ht. rewrite loglik_line. field. exact Ht. Qed.
+
+(* along coordinate i: the i-th component of the gradient, up to (t/2) (A^T Pe A)_ii *)
+Lemma fd_component x i t : t <> 0 -> (i < n)%nat ->
+  (loglik m n A Pe b (rline x (unitv i) t) - loglik m n A Pe b x) / t = glik m n A Pe b x i - t / 2 * qf Pe m (mv A n (unitv i)).
+Proof. intros Ht Hi. rewrite (fd_quotient x (unitv i) t Ht). rewrite ip_unitv by exact Hi. reflexivity. Qed.
+
+(* a stopping test passed by the FINITE-DIFFERENCE gradient bounds the true gradient: |fd_i| <= tol and curvature along e_i <= K
+   give |g_i| <= tol + |t| K / 2 *)
+Lemma fd_test_bounds_gradient x i t tol K : t <> 0 -> (i < n)%nat ->
+  Rabs ((loglik m n A Pe b (rline x (unitv i) t) - loglik m n A Pe b x) / t) <= tol ->
+  Rabs (qf Pe m (mv A n (unitv i))) <= K ->
+  Rabs (glik m n A Pe b x i) <= tol + Rabs t * K / 2.
+Proof.
+  intros Ht Hi H1 H2. rewrite (fd_component x i t Ht Hi) in H1.
+  set (g := glik m n A Pe b x i) in *. set (c := qf Pe m (mv A n (unitv i))) in *.
+  replace g with ((g - t / 2 * c) + t / 2 * c) by ring.
+  eapply Rle_trans; [apply Rabs_triang|].
+  assert (E : Rabs (t / 2 * c) = Rabs t * Rabs c / 2).
+  { rewrite Rabs_mult. unfold Rdiv. rewrite Rabs_mult. rewrite (Rabs_right (/ 2)) by lra. ring. }
+  rewrite E. pose proof (Rabs_pos t). nra.
+Qed.
+End FiniteDifference.
